@@ -1,9 +1,10 @@
 package props
 
 import (
-	"os"
+	"encoding/binary"
 	"encoding/json"
 	"fmt"
+	"os"
 	"sort"
 	"strconv"
 	"strings"
@@ -307,7 +308,18 @@ func (x *c12World) apply(op string, check bool) bool {
 				}
 			}
 		}
-	case "new":
+	case "new", "newz", "newdup":
+		// newz / newdup: the server's random draw for the chat id is 0 (which chat requests read as "the public chat") /
+		// the id of the first private chat - environment answers the harness decides
+		if p[0] == "newz" {
+			vrt.ForceRand(0)
+		}
+		if p[0] == "newdup" {
+			if len(x.chats) != 1 || len(x.chats[0].id) != 4 {
+				return false
+			}
+			vrt.ForceRand(binary.BigEndian.Uint32(x.chats[0].id))
+		}
 		t, _ := strconv.Atoi(p[2])
 		if !x.on[k] || !x.on[t] || len(x.chats) >= 2 {
 			return false
@@ -830,6 +842,22 @@ func runC12(w *explore.Worker) {
 				w.Violation(v.Signature, v.Detail+"\nhistory: "+strings.Join(h, " ; "), len(h), explore.SeqReplay{Kind: "history", Harness: "C12chat", History: h})
 			}
 			w.Outcome("ghost " + last + " " + fmt.Sprint(len(res.Violations)))
+		}
+	}
+	// unlucky draws of the chat id
+	if w.Mine(5) {
+		for _, h := range [][]string{
+			{"newz:0:1", "join:1:0", "priv:0:0:plain"},
+			{"newz:0:1", "join:1:0", "subj:0:0"},
+			{"new:0:1", "join:1:0", "newdup:2:0", "priv:0:0:plain"},
+			{"new:0:1", "join:1:0", "newdup:2:0", "priv:2:1:plain"},
+		} {
+			w.Eval()
+			res := c12Exec(h)
+			for _, v := range res.Violations {
+				w.Violation(v.Signature, v.Detail+"\nhistory: "+strings.Join(h, " ; "), len(h), explore.SeqReplay{Kind: "history", Harness: "C12chat", History: h})
+			}
+			w.Outcome("draw " + h[len(h)-1] + " " + fmt.Sprint(len(res.Violations)))
 		}
 	}
 	// pairs of concurrent operations from three base states
